@@ -1,7 +1,7 @@
 SPECIFICATION GSpec
 CONSTANTS
   Kinds = {"small"}
-  Times = {1, 2, 5, 17, 61}
+  Times = {1, 4, 5, 8, 17, 61}
   Start = 1
   ChkSet = {FALSE}
   GenDepth = 4
